@@ -610,12 +610,113 @@ func (h *qhist) pickItem() (uint64, string, bool) {
 // bytes is chosen here: the registered key over the current bytes (valid), over an earlier version of the
 // same message (stale), over another message's bytes, a key that is not the registered one, junk.
 func (h *qhist) opSign() {
-	r := h.run.Rng
-	id, chain, ok := h.pickItem()
+	p, ok := h.prepSign(h.run.Rng.Intn(nVals))
 	if !ok {
 		return
 	}
+	err := h.e.cons.AddMessageSignature(h.e.ctx, h.e.vals[p.v], []*consensustypes.ConsensusMessageSignature{p.msg})
+	c := classOf(err)
+	if c == 50 {
+		h.t.Fatalf("AddMessageSignature: %v", err)
+	}
+	if err == nil {
+		h.regAt[fmt.Sprintf("%d/%d", p.id, p.v)] = p.regNow
+	}
+	h.run.Count("op", "sign")
+	h.run.Count("sign-what", p.what)
+	h.run.Count("sign-outcome", fmt.Sprint(c))
+	h.step(p.coq, c, p.rep)
+}
+
+// opSignMulti: ONE MsgAddMessagesSignatures of a validator carrying signatures for two or three messages, possibly of
+// different chains (what pigeon sends).  The keeper handles them in order and stops at the first it refuses.  Each element
+// is first tried alone, in order, on a branch of the store that is thrown away: that tells how far the model has to go;
+// then the real call is made with all of them at once and its outcome and the resulting store are what the model is
+// compared with — anything the code carries over from one element to the next (a key looked up once, a queue looked up
+// once) shows up as a difference.
+func (h *qhist) opSignMulti() {
+	r := h.run.Rng
 	v := r.Intn(nVals)
+	var ps []signPrep
+	seen := map[uint64]bool{}
+	plain := r.Intn(3) > 0
+	for i := 0; i < 2+r.Intn(2); i++ {
+		p, ok := h.prepSignP(v, plain && r.Intn(6) > 0)
+		if !ok {
+			return
+		}
+		if seen[p.id] && r.Intn(3) > 0 {
+			continue
+		}
+		seen[p.id] = true
+		ps = append(ps, p)
+	}
+	if len(ps) < 2 {
+		return
+	}
+	dry, _ := h.e.ctx.CacheContext()
+	upto := len(ps)
+	for i, p := range ps {
+		if err := h.e.cons.AddMessageSignature(dry, h.e.vals[v], []*consensustypes.ConsensusMessageSignature{p.msg}); err != nil {
+			upto = i + 1
+			break
+		}
+	}
+	var msgs []*consensustypes.ConsensusMessageSignature
+	for _, p := range ps {
+		msgs = append(msgs, p.msg)
+	}
+	err := h.e.cons.AddMessageSignature(h.e.ctx, h.e.vals[v], msgs)
+	c := classOf(err)
+	if c == 50 {
+		h.t.Fatalf("AddMessageSignature: %v", err)
+	}
+	h.run.Count("op", "sign-multi")
+	h.run.Count("sign-multi", fmt.Sprintf("%d signatures, %d chains, outcome %d", len(ps), func() int {
+		cs := map[string]bool{}
+		for _, p := range ps {
+			cs[p.chain] = true
+		}
+		return len(cs)
+	}(), c))
+	for i, p := range ps[:upto] {
+		last := i+1 == upto
+		if !last || err == nil {
+			h.regAt[fmt.Sprintf("%d/%d", p.id, v)] = p.regNow
+		}
+		p.rep["op"] = fmt.Sprintf("sign (element %d of %d in one message)", i+1, len(ps))
+		if !last {
+			p.rep["outcome"] = 0
+			h.replay = append(h.replay, p.rep)
+			h.steps = append(h.steps, fmt.Sprintf("C06.QStepNoObs (%s) 0", p.coq))
+			h.okOps++
+			continue
+		}
+		h.step(p.coq, c, p.rep)
+	}
+}
+
+type signPrep struct {
+	v      int
+	id     uint64
+	chain  string
+	msg    *consensustypes.ConsensusMessageSignature
+	coq    string
+	what   string
+	regNow string // what the oracle expects as the stored key if the signature is accepted
+	rep    map[string]any
+}
+
+// prepSign draws one signature of validator v: which message, which account it names, which private key signs which bytes.
+func (h *qhist) prepSign(v int) (signPrep, bool) { return h.prepSignP(v, false) }
+
+// plain: the registered account of the message's chain, its key, over the current bytes (when the validator has one).
+func (h *qhist) prepSignP(v int, plain bool) (signPrep, bool) {
+	r := h.run.Rng
+	id, chain, ok := h.pickItem()
+	if !ok {
+		return signPrep{}, false
+	}
 	// the account the validator names
 	var named *acctRow
 	for i := range h.reg[v] {
@@ -636,7 +737,14 @@ func (h *qhist) opSign() {
 			other = &h.reg[v][i]
 		}
 	}
-	if other != nil && r.Intn(7) == 0 {
+	if plain && named != nil {
+		addr, how = named.addr, "registered"
+		for i := range h.keys {
+			if h.keyAddr(i) == common.BytesToAddress(named.key) {
+				signer = i
+			}
+		}
+	} else if other != nil && r.Intn(7) == 0 {
 		addr, how = other.addr, "other-chain-account"
 		for i := range h.keys {
 			if h.keyAddr(i) == common.BytesToAddress(other.key) {
@@ -670,7 +778,11 @@ func (h *qhist) opSign() {
 	var bts []byte
 	what := "current"
 	vs := h.vers[id]
-	switch k := r.Intn(20); {
+	k := r.Intn(20)
+	if plain {
+		k = 19
+	}
+	switch {
 	case len(vs) == 0 || k == 0:
 		what = "junk"
 		bts = make([]byte, 32)
@@ -702,23 +814,14 @@ func (h *qhist) opSign() {
 	// the key registered right now for (v, chain, addr), from the registrations the harness made (first exact match, as
 	// a list scan gives it) - NOT asked from the code under test; recorded when the signature is accepted
 	regNow, regFound := h.registeredKey(v, chain, addr)
-	err = h.e.cons.AddMessageSignature(h.e.ctx, h.e.vals[v], []*consensustypes.ConsensusMessageSignature{
-		{Id: id, QueueTypeName: turnstoneQueue(chain), Signature: sig, SignedByAddress: addr}})
-	c := classOf(err)
-	if c == 50 {
-		h.t.Fatalf("AddMessageSignature: %v", err)
+	want := hex.EncodeToString(regNow)
+	if !regFound {
+		want = "(validator has no account " + addr + " registered for " + chain + ")"
 	}
-	if err == nil {
-		h.regAt[fmt.Sprintf("%d/%d", id, v)] = hex.EncodeToString(regNow)
-		if !regFound {
-			h.regAt[fmt.Sprintf("%d/%d", id, v)] = "(validator has no account " + addr + " registered for " + chain + ")"
-		}
-	}
-	h.run.Count("op", "sign")
-	h.run.Count("sign-what", what+"/"+how)
-	h.run.Count("sign-outcome", fmt.Sprint(c))
-	h.step(fmt.Sprintf("C06.QSign %d %d %d %d %s", v, qchainID(chain), id, idOf(h.addrIDs, addr), spec), c,
-		map[string]any{"op": "sign", "validator": v, "chain": chain, "id": id, "named_address": addr, "signing_key": signer, "signed": what, "bytes": hex.EncodeToString(bts), "signature": hex.EncodeToString(sig)})
+	return signPrep{v: v, id: id, chain: chain, what: what + "/" + how, regNow: want,
+		msg: &consensustypes.ConsensusMessageSignature{Id: id, QueueTypeName: turnstoneQueue(chain), Signature: sig, SignedByAddress: addr},
+		coq: fmt.Sprintf("C06.QSign %d %d %d %d %s", v, qchainID(chain), id, idOf(h.addrIDs, addr), spec),
+		rep: map[string]any{"op": "sign", "validator": v, "chain": chain, "id": id, "named_address": addr, "signing_key": signer, "signed": what, "bytes": hex.EncodeToString(bts), "signature": hex.EncodeToString(sig)}}, true
 }
 
 var qests = []uint64{1, 21000, 299999, 300000, 300001, 5000000}
@@ -910,8 +1013,10 @@ func runQueueHistory(t *testing.T, run *emit.Run, latent bool) *qhist {
 		switch k := r.Intn(100); {
 		case k < 12:
 			h.opPut()
-		case k < 55:
+		case k < 49:
 			h.opSign()
+		case k < 55:
+			h.opSignMulti()
 		case k < 70:
 			h.opEstimates()
 		case k < 82:
